@@ -62,6 +62,7 @@ def make_measure(shape, q=4, pin_pitch=True):
         from partitura.io import exportmusicxml as EX
 
         bar = 4 * q
+        t0 = bar if shape.endswith("_m2") else 0  # the measure under test is the second one of the part
         require(0 <= on_a)
         require(1 <= d_a)
         require(on_a + d_a <= bar)
@@ -74,57 +75,67 @@ def make_measure(shape, q=4, pin_pitch=True):
         require(st_b == 1 if pin_pitch else (1 <= st_b <= 2))
         part = S.Part("P", quarter_duration=q)
         part.add(S.TimeSignature(4, 4), 0)
-        m = S.Measure(number=1)
-        part.add(m, 0, bar)
+        if t0:
+            part.add(S.Measure(number=1), 0, t0)
+            part.add(S.Rest(id="r0", voice=1, staff=1, symbolic_duration={"type": "whole"}), 0, t0)
+        m = S.Measure(number=2 if t0 else 1)
+        part.add(m, t0, t0 + bar)
         sd = {"type": "quarter"}
         notes = []
         a = S.Note("C", oct_a, None, id="a", voice=1, staff=1, symbolic_duration=dict(sd))
-        part.add(a, on_a, on_a + d_a)
+        part.add(a, t0 + on_a, t0 + on_a + d_a)
         notes.append(a)
         b = S.Note("F", 3, alt_b, id="b", voice=v_b, staff=st_b, symbolic_duration=dict(sd))
-        part.add(b, on_b, on_b + d_b)
+        part.add(b, t0 + on_b, t0 + on_b + d_b)
         notes.append(b)
         if shape in ("chord", "all"):
             c = S.Note("E", oct_a, None, id="c", voice=1, staff=1, symbolic_duration=dict(sd))  # chord with a
-            part.add(c, on_a, on_a + d_a)
+            part.add(c, t0 + on_a, t0 + on_a + d_a)
             notes.append(c)
-        if shape in ("chord_uneq", "all"):
+        if shape in ("chord_uneq", "all", "poly_two"):
             d = S.Note("G", oct_a, 1, id="d", voice=1, staff=1, symbolic_duration=dict(sd))  # same onset as a, one division long
-            part.add(d, on_a, on_a + 1)
+            part.add(d, t0 + on_a, t0 + on_a + 1)
             notes.append(d)
+        if shape == "poly_two":
+            # an earlier note of the same voice still sounding when the unequal chord a/d begins: two notes have to be
+            # moved to free voices, found in two passes
+            require(on_a >= 1)
+            e5 = S.Note("A", oct_a, None, id="e", voice=1, staff=1, symbolic_duration=dict(sd))
+            part.add(e5, t0, t0 + on_a + 1)
+            notes.append(e5)
         if shape in ("grace", "all"):
             g = S.GraceNote("acciaccatura", "B", 4, -1, id="g", voice=v_b, staff=st_b, symbolic_duration={"type": "eighth"})
-            part.add(g, on_b, on_b)
+            part.add(g, t0 + on_b, t0 + on_b)
             notes.append(g)
         t_w = None
         if shape == "direction":
             # a dynamics mark inside the measure (non-note elements are merged into the first voice)
             t_w = on_b + 1
             require(t_w < bar)
-            part.add(S.Words("dolce", staff=1), t_w)
-            part.add(S.DynamicLoudnessDirection("p", staff=1) if hasattr(S, "DynamicLoudnessDirection") else S.Words("p", staff=1), on_a + 1) if on_a + 1 < bar else None
+            part.add(S.Words("dolce", staff=1), t0 + t_w)
+            part.add(S.DynamicLoudnessDirection("p", staff=1) if hasattr(S, "DynamicLoudnessDirection") else S.Words("p", staff=1), t0 + on_a + 1) if on_a + 1 < bar else None
         seen_div = []
-        if shape == "divchange":
+        if shape.startswith("divchange"):
             # divisions double at the half bar; notes do not cross the change
             half = bar // 2
             require(on_a + d_a <= half)
             require(on_b >= half)
             exclude_known("KF-C03-gap-before-divisions-change", on_a + d_a != half)
-            part.set_quarter_duration(half, 2 * q)
+            part.set_quarter_duration(t0 + half, 2 * q)
             # (timeline ticks after the change are half as long: b keeps its tick values)
         if shape in ("rest_tie", "all"):
             r = S.Rest(id="r", voice=1, staff=1, symbolic_duration=dict(sd))
-            part.add(r, 0, 1)
+            part.add(r, t0, t0 + 1)
             notes.append(r)
             b.tie_next = S.Note("F", 3, alt_b, id="b2", voice=v_b, staff=st_b)
         state = {"note_id_counter": {}, "range_counter": {}}
         els = must_not_raise(EX.linearize_measure_contents, part, m.start, m.end, state, _what="linearize_measure_contents")
-        got, end_pos = interpret(els, 0, (lambda pos, d: seen_div.append((pos, d))))
-        if shape == "divchange":
+        got, end_pos = interpret(els, t0, (lambda pos, d: seen_div.append((pos, d))))
+        if shape.startswith("divchange"):
             check(any(d == 2 * q for (_, d) in seen_div), "the divisions change is not written", seen_div)
             for (posd, d) in seen_div:
                 if d == 2 * q:
-                    check(posd == bar // 2, "the divisions change is written at another position than where it applies", posd, bar // 2)
+                    check(posd == t0 + bar // 2, "the divisions change is written at another position than where it applies", posd, t0 + bar // 2)
         check(len(got) == len(notes), "number of note elements", len(got), len(notes))
         for n in notes:
             hits = [e for e in got if e["id"] == n.id]
@@ -148,14 +159,14 @@ def make_measure(shape, q=4, pin_pitch=True):
             for x, y in zip(stream[:-1], stream[1:]):
                 check(x["onset"] + x["dur"] <= y["onset"] or (x["onset"] == y["onset"] and x["dur"] == y["dur"]),
                       "polyphony left inside a voice", v, x["id"], y["id"])
-        check(0 <= end_pos <= bar, "position bookkeeping leaves the measure", end_pos)
+        check(t0 <= end_pos <= t0 + bar, "position bookkeeping leaves the measure", end_pos)
         return [[e["id"], int(e["onset"]), int(e["dur"])] for e in got]
 
     return h
 
 
 def _inst(tier):
-    shapes = ["plain", "chord", "chord_uneq", "grace", "rest_tie", "direction", "divchange"] + (["all"] if tier != "quick" else [])
+    shapes = ["plain", "chord", "chord_uneq", "grace", "rest_tie", "direction", "divchange", "divchange_m2", "poly_two"] + (["all"] if tier != "quick" else [])
     out = [{"shape": s} for s in shapes]
     if tier != "quick":
         out += [{"shape": "plain", "pin_pitch": False}, {"shape": "chord", "q": 6}]
@@ -171,8 +182,9 @@ HARNESSES = [
                  "do_attributes", "do_directions", "do_barlines", "do_harmony", "do_prints"],
       bounds="one 4/4 measure, divisions 4; two notes with symbolic onset/duration, symbolic octave / alteration / voice (1..2) / "
              "staff (1..2); optional chord member, chord member of other duration, grace note, rest and tie flag, words/dynamics "
-             "inside the measure, a mid-measure divisions change (notes not crossing it) per shape; "
+             "inside the measure, a mid-measure divisions change (notes not crossing it) in the first or in a later measure, an unequal chord "
+             "overlapped by an earlier note of its voice, per shape; "
              "symbolic durations given (the estimator is C11's)",
-      outside="load_musicxml, serialisation to bytes and the re-export fixpoint, part lists / groups, directions, slurs, tuplets, "
-              "mid-measure division changes, several measures"),
+      outside="load_musicxml, serialisation to bytes and the re-export fixpoint, part lists / groups, slurs, tuplets, "
+              "notes crossing a divisions change, more than four notes per measure"),
 ]
